@@ -382,6 +382,17 @@ class Program:
         return self.labels[name][1]
 
     def operand(self, pc, k, a):
+        # the value of an operand text is the same wherever it occurs in this program (labels are resolved by now)
+        cache = self.__dict__.setdefault('_opcache', {})
+        c = cache.get(a)
+        if c is None:
+            kind, v = self._operand(pc, k, a)
+            c = cache[a] = (kind, v, self.imm_label.get((pc, k)))
+        elif c[2] is not None:
+            self.imm_label[(pc, k)] = c[2]
+        return (c[0], c[1])
+
+    def _operand(self, pc, k, a):
         a = a.strip()
         if a.startswith('[') and a.endswith(']'):
             inner = a[1:-1]
